@@ -307,7 +307,7 @@ for c in cfgs:
         draw_linear_kwargs=dict(cg_name=None, cg_kwargs=dict(absdelta=1e-10, maxiter=40),
                                 **(dict(cg=jft.conjugate_gradient.static_cg) if c["lin_jit"] == "1" else {})),
         nonlinearly_update_kwargs=dict(minimize_kwargs=dict(name=None, xtol=1e-8, cg_kwargs=dict(name=None), maxiter=6),
-                                       **(dict(minimize=jft.optimize.static_newton_cg) if c["nl_jit"] == "1" else {})),
+                                       **(dict(minimize=jft.optimize._static_newton_cg) if c["nl_jit"] == "1" else {})),
         kl_kwargs=dict(minimize_kwargs=dict(name=None, absdelta=1e-10, cg_kwargs=dict(name=None), maxiter=8)),
         sample_mode=c["mode"], odir=None)
     leaves = [np.asarray(x) for x in jax.tree_util.tree_leaves((samples.pos, samples._samples))]
